@@ -7,6 +7,9 @@
 (* Sets are logged as [lo,hi] ranges (hi = -1: infinite) and become sets   *)
 (* of integers; the infinite tail is cut at INFB, above every finite index *)
 (* the recorder uses.                                                      *)
+(* memo: how the memory binding requests of the current behaviour were     *)
+(* handled, by canonical form (Bind!CanonCall): a later request with the   *)
+(* same canonical form must be handled alike (Bind!SameHandling).          *)
 (***************************************************************************)
 EXTENDS Bind, Json, IOUtils, TLC
 
@@ -14,7 +17,7 @@ CONSTANT DocStrict      \* also demand what only the documentation of a neighbou
 
 T == ndJsonDeserialize(IOEnv.TRACE)
 
-VARIABLES l, tp, st
+VARIABLES l, tp, st, memo
 
 INFB == 640
 Val(js) == UNION {(js[k][1]) .. (IF js[k][2] = -1 THEN INFB ELSE js[k][2]) : k \in 1..Len(js)}
@@ -23,7 +26,7 @@ AffOf(a) == [t \in DOMAIN a |-> Val(a[t])]
 MpOf(m)  == [mode |-> m.mode, nodes |-> Val(m.nodes)]
 SysOf(s) == [i \in 1..Len(s) |-> [k |-> s[i].k, t |-> s[i].t, mask |-> Val(s[i].mask), ret |-> s[i].ret, err |-> s[i].err]]
 
-Init == l = 1 /\ tp = [ts |-> FALSE] /\ st = [aff |-> <<>>]
+Init == l = 1 /\ tp = [ts |-> FALSE] /\ st = [aff |-> <<>>] /\ memo = <<>>
 
 IsEvent(e) == l <= Len(T) /\ T[l].e = e /\ l' = l + 1
 
@@ -57,6 +60,7 @@ TReset ==
         /\ e.mp.mode = 0 /\ e.mp.nodes = <<>>
         /\ tp' = ntp
         /\ st' = [aff |-> AffOf(e.aff), mp |-> MpOf(e.mp), mb |-> Firsttouch, ab |-> Firsttouch]
+        /\ memo' = <<>>
 
 TCall ==
   /\ IsEvent("call")
@@ -77,10 +81,16 @@ TCall ==
         /\ e.fret = 0                         \* hwloc_free of what alloc_membind returned
         /\ Rel(tp, st, c, r, DocStrict)
         /\ st' = NextSt(tp, st, c, r)
+        \* the set is replaced (whole topology -> complete set, cpuset -> nodeset) before anything else looks at it
+        /\ IF Fixable(tp, c)
+           THEN LET k == CanonCall(tp, c) IN
+                /\ k \in DOMAIN memo => SameHandling(memo[k], Handling(r))
+                /\ memo' = IF k \in DOMAIN memo THEN memo ELSE (k :> Handling(r)) @@ memo
+           ELSE memo' = memo
   /\ UNCHANGED tp
 
 Next == TReset \/ TCall
-Spec == Init /\ [][Next]_<<l, tp, st>>
+Spec == Init /\ [][Next]_<<l, tp, st, memo>>
 
 Accepted == TLCGet("stats").diameter - 1 = Len(T)
 =============================================================================
